@@ -444,6 +444,30 @@ pub fn install_panic_hook() {
         } else {
             "<non-string panic>".to_string()
         };
+        // A panic inside a dependency (bnum overflow checks, slice indexing in core, ...)
+        // is attributed to the innermost yamaquasi frame as well.
+        let loc = if !loc.starts_with("src/") {
+            let bt = std::backtrace::Backtrace::force_capture().to_string();
+            let mut caller = "?".to_string();
+            for l in bt.lines() {
+                let l = l.trim();
+                if let Some(i) = l.find("yamaquasi::") {
+                    if l[..i].trim_end_matches(' ').ends_with(':') || l[..i].contains(": ") {
+                        let mut name = l[i..].to_string();
+                        if let Some(j) = name.rfind("::h") {
+                            if name.len() - j == 19 {
+                                name.truncate(j);
+                            }
+                        }
+                        caller = name.replace(' ', "");
+                        break;
+                    }
+                }
+            }
+            format!("{}@{}", loc, caller)
+        } else {
+            loc
+        };
         if std::env::var("VERIF_BACKTRACE").is_ok() {
             eprintln!("panic at {}: {}\n{}", loc, msg, std::backtrace::Backtrace::force_capture());
         }
